@@ -58,6 +58,8 @@ pub struct SimAdvice {
     counts: RefCell<BTreeMap<&'static str, u64>>,
     pub fired: RefCell<Vec<String>>,
     last_elem: Cell<u64>,
+    /// clock of the VM request being served (set by SimHost; some primitives get no process handle)
+    pub cur_clk: Cell<u32>,
     /// tampered advice-map answers must outlive the call (the trait returns a reference)
     alt_values: RefCell<Vec<Box<[Felt]>>>,
     /// number of primitive requests by kind (dry-run statistics for fault placement)
@@ -72,6 +74,7 @@ impl SimAdvice {
             counts: RefCell::new(BTreeMap::new()),
             fired: RefCell::new(vec![]),
             last_elem: Cell::new(0),
+            cur_clk: Cell::new(0),
             alt_values: RefCell::new(vec![]),
             request_log: RefCell::new(vec![]),
         }
@@ -83,6 +86,7 @@ impl SimAdvice {
             counts: RefCell::new(BTreeMap::new()),
             fired: RefCell::new(vec![]),
             last_elem: Cell::new(0),
+            cur_clk: Cell::new(0),
             alt_values: RefCell::new(vec![]),
             request_log: RefCell::new(vec![]),
         }
@@ -94,6 +98,7 @@ impl SimAdvice {
         let n = c.entry(prim).or_insert(0);
         let cur = *n;
         *n += 1;
+        let clk = if clk == 0 { self.cur_clk.get() } else { clk };
         self.request_log.borrow_mut().push((prim, clk));
         let f = self.faults.iter().find(|f| f.prim == prim && f.nth == cur).cloned();
         if let Some(f) = &f {
@@ -533,6 +538,7 @@ impl Host for SimHost {
         if self.cfg.log_requests {
             self.record(EV_GET, extractor_id(&extractor), process, false);
         }
+        self.adv.cur_clk.set(process.clk());
         self.adv.get_advice(process, &extractor)
     }
 
@@ -540,6 +546,7 @@ impl Host for SimHost {
         if self.cfg.log_requests {
             self.record(EV_SET, 0, process, false);
         }
+        self.adv.cur_clk.set(process.clk());
         self.adv.set_advice(process, &injector)
     }
 
